@@ -33,6 +33,11 @@ package vgirpc
 //@   at call writeErrorBatch assert [reported] arg2 != nil
 //@   at call (*HttpServer).writeExchangeCapError assert [reportedcap] arg4 != nil
 //@   ensures [local_erragree] errResp ==> result != nil
+//@   # and the converse on the flush path (repaired defect: a batch the IPC writer refused was reported
+//@   # to the hook while the client got a clean 200 without data or token): the turn's body goes out
+//@   # with status 200 only when no write failed, and then the hook is told nil
+//@   at call (*HttpServer).writeArrow#4 assert [cleanonlyifwritten] arg2 == 200 && writeErr == nil
+//@   ensures [local_cleanisnil_ret8] result == nil
 
 // A producer turn that failed inside runProduceLoop has already answered with an exception batch
 // (runProduceLoop writes it): the error it returns must reach the hook's end callback. In the
